@@ -398,6 +398,15 @@ def run_case(cfg, want_fsm=False):
     return tr
 
 
+def trace_sample(tr, ncmd=14, nops=6):
+    """a short piece of the actual history of one execution, for the evidence file"""
+    cmds = [dict(cycle=c[1], phase=c[2], rank=c[3], cmd=c[4], bank=c[5], addr=hex(c[6])) for c in sorted(tr.ref.cmds)[:ncmd]]
+    ports = {}
+    for m in tr.masters[:2]:
+        ports["port%d" % m.idx] = [o.brief() for o in m.accepted[:nops]]
+    return dict(first_dfi_commands=cmds, first_port_commands=ports)
+
+
 def popcount(x):
     return bin(x).count("1")
 
